@@ -162,6 +162,9 @@ def check_case(ctx, r, indent, eol, content_ws=False):
 def add_content_whitespace(rng, r, eol):
     """Give some leaves internal / edge whitespace including the eol string in use."""
     for x in gen.walk(r):
+        if x["k"] in ("text", "html") and rng.random() < 0.06:
+            x["s"] = ""     # an empty leaf among content that holds line separators of its own
+            continue
         if x["k"] in ("text", "html", "obj") and "nodelist" not in x and rng.random() < 0.5:
             mid = rng.choice(["\n", " ", eol or "\n", "\n\n", "\t", " \n  "])
             x["s"] = rng.choice([x["s"] + mid + "z" + x["s"], mid + x["s"], x["s"] + mid, "<pre>" + x["s"] + mid + "q</pre>" if x["k"] != "text" else x["s"] + mid + "q"])
